@@ -172,6 +172,10 @@ func driver(seed uint64, n int, outV, outJSON string, _ []string) {
 		blocks := []int64{5, 6, 8, 12}[r.Intn(4)]
 		max := blocks * 4096
 		zstdMode := r.Chance(50)
+		createdOnly := c == 1 // corpus case: uncompressed mode, killed after file creation, before the first byte
+		if createdOnly {
+			zstdMode = false
+		}
 		mode := map[bool]string{true: "zstd", false: "uncompressed"}[zstdMode]
 		g = &gates{evPark: make(chan string, 1), reqPark: make(chan string), evGo: make(chan struct{}), reqGo: make(chan struct{}), enabled: true}
 		my := g
@@ -185,7 +189,17 @@ func driver(seed uint64, n int, outV, outJSON string, _ []string) {
 		sizes := []int64{1, 100, 4096, 4097, 9000, 12000}
 		var blobs []*blob
 		for i := 0; i < 6; i++ {
-			blobs = append(blobs, mkBlob(r, r.Pick(sizes), r.Chance(50)))
+			b := mkBlob(r, r.Pick(sizes), r.Chance(50))
+			for dup := true; dup; { // distinct contents: the content identity is the blob index
+				dup = false
+				for _, o := range blobs {
+					if o.hash == b.hash {
+						dup = true
+						b = mkBlob(r, int64(len(b.data))+1, false)
+					}
+				}
+			}
+			blobs = append(blobs, b)
 		}
 		acKeys := []string{blobs[0].hash, blobs[1].hash}
 		text := []string{fmt.Sprintf("mode=%s max=%d", mode, max)}
@@ -223,6 +237,9 @@ func driver(seed uint64, n int, outV, outJSON string, _ []string) {
 		incomplete := map[string]bool{} // rel path of the file being written at the crash
 		kindOfCrash := r.Intn(4)
 		reupload := c == 0 // corpus case: an interrupted re-upload of an acknowledged CAS blob
+		if createdOnly {
+			kindOfCrash = 0
+		}
 		if reupload {
 			kindOfCrash = 0
 			_ = dc.Put(ctx, cache.CAS, blobs[2].hash, int64(len(blobs[2].data)), bytes.NewReader(blobs[2].data))
@@ -235,8 +252,11 @@ func driver(seed uint64, n int, outV, outJSON string, _ []string) {
 			if reupload {
 				u = up{cache.CAS, blobs[2].hash, blobs[2]}
 			}
+			if createdOnly {
+				u = up{cache.CAS, blobs[3].hash, blobs[3]}
+			}
 			k := 0
-			if len(u.b.data) > 1 {
+			if len(u.b.data) > 1 && !createdOnly {
 				k = r.Intn(len(u.b.data))
 			}
 			before := map[string]bool{}
